@@ -625,7 +625,12 @@ func (req *Request) buildDistributedRequestData(subBackends []string) (requestDa
 	if len(req.Columns) != 0 {
 		requestData["columns"] = req.Columns
 	} else if !isStatsRequest {
-		panic("columns undefined for dispatched request")
+		// no Columns header means all columns: name them, the partner must not answer with a column set of its own
+		columns := make([]string, 0, len(req.RequestColumns))
+		for _, col := range req.RequestColumns {
+			columns = append(columns, col.Name)
+		}
+		requestData["columns"] = columns
 	}
 
 	// Filter
